@@ -241,6 +241,16 @@ func runC14(c *mon.Ctx) {
 		huge := r.IntN(40) == 0 // one string of (almost) maximal length
 		overflow := false
 		hugeWin := huge && r.IntN(2) == 0
+		// now and then a Macintosh string and a Windows string whose stored
+		// bytes are the same (storage is shared by content): an ASCII string
+		// of even length and the string its bytes spell in UTF-16BE
+		twinMac, twinWin := "", ""
+		if r.IntN(5) == 0 {
+			twinMac = []string{"Aria", "Test", "  ", "AB", "Bold Italic ", "Regular!", "No. 5 (Book)"}[r.IntN(7)]
+			for i := 0; i+1 < len(twinMac); i += 2 {
+				twinWin += string(rune(twinMac[i])<<8 | rune(twinMac[i+1]))
+			}
+		}
 		fill := func(macPlatform bool, L *c14langs, forced int) {
 			var tags []string
 			tags = append(tags, L.tag[L.ids[forced%len(L.ids)]])
@@ -332,6 +342,11 @@ func runC14(c *mon.Ctx) {
 							s = strings.Repeat(s, 1+r.IntN(budgetBytes/unit/c14units(s, macPlatform)))
 						}
 						cls = "long"
+					case twinMac != "" && r.IntN(4) == 0:
+						s, cls = twinWin, "same-bytes-as-a-string-of-the-other-platform"
+						if macPlatform {
+							s = twinMac
+						}
 					case shared != "" && r.IntN(4) == 0:
 						s, cls = shared, "shared"
 					default:
@@ -660,7 +675,7 @@ func runC14(c *mon.Ctx) {
 			c.Require(fmt.Sprintf("lang:win:%d", id))
 		}
 	}
-	c.Require("storage:beyond-64k", "storage:offset-beyond-16-bits", "id:named", "id:15", "id:26-255", "id:256-32767", "id:32768-65534", "id:65535",
+	c.Require("string:same-bytes-as-a-string-of-the-other-platform", "storage:beyond-64k", "storage:offset-beyond-16-bits", "id:named", "id:15", "id:26-255", "id:256-32767", "id:32768-65534", "id:65535",
 		"string:empty", "string:ascii", "string:bmp", "string:astral", "string:long", "string:32767-units", "string:mac-repertoire", "string:shared",
 		"ximage:name-agrees")
 
